@@ -291,7 +291,19 @@ func H_c12_paths() {
 	h := NewDirHandler(root, false)
 	symAssume(h.Prepare() == nil)
 	symAssume(h.AddOut(mkMessage(mids[0], "N1CALL", "", false, "b\r\n")) == nil)
-	mid := symString(symInt(0, L))
+	mid := ""
+	if symParam("ALPHA", 0) == 3 {
+		// MID built from up to L path segments out of {"..", ".", "a", ""} joined by '/'
+		n := symInt(1, L)
+		for i := 0; i < n; i++ {
+			if i > 0 {
+				mid += "/"
+			}
+			mid += [...]string{"..", ".", "a", ""}[symInt(0, 3)]
+		}
+	} else {
+		mid = symString(symInt(0, L))
+	}
 	for i := 0; i < len(mid); i++ {
 		symAssume(mid[i] != '\r' && mid[i] != '\n') // cannot occur in a header value / proposal field
 		switch symParam("ALPHA", 0) {
